@@ -46,6 +46,10 @@
 (*   "ParkedLeak"     parked is not decremented after a wake-up                        *)
 (*   "ParkNoRecheck"  parkAndTake waits without re-checking global.size under parkMu   *)
 (*   "LockQFirst"     stealHalf locks victim then thief instead of the address order   *)
+(*   "SignalOnFirstOnly" push signals only on the empty -> non-empty transition of the *)
+(*                    global ring (a burst of two pushes wakes one of two sleepers)    *)
+(*   "LPopNoRecheck"  popFront trusts the lock-free probe and does not re-check        *)
+(*                    size == 0 under the mutex (a thief may have emptied the ring)    *)
 EXTENDS Integers, Sequences, FiniteSets, TLC
 
 CONSTANTS WorkerSeq,   \* <<"w0","w1",...>> worker names in worker-id order
@@ -150,7 +154,7 @@ LPopProbe(w) == /\ pc[w] = "lprobe"
 
 LPopLock(w) ==
   /\ pc[w] = "llock" /\ lmu[w] = ""
-  /\ IF lsize[w] = 0
+  /\ IF lsize[w] = 0 /\ ~Def("LPopNoRecheck")
      THEN /\ Goto(w, "gprobe") /\ UNCHANGED <<localv, lmu, item>>
      ELSE /\ lmu' = [lmu EXCEPT ![w] = w]
           /\ item' = [item EXCEPT ![w] = lbuf[w][lhead[w] + 1]]
@@ -165,7 +169,9 @@ LPopStore(w) ==
   /\ pc[w] = "lstore"
   /\ lsa' = [lsa EXCEPT ![w] = lsize[w]]
   /\ lmu' = [lmu EXCEPT ![w] = ""]
-  /\ TakeRet(w, item[w])
+  /\ IF item[w] = 0       \* only with LPopNoRecheck: an empty slot was popped, popFront returns nil, take goes on
+     THEN Goto(w, "gprobe") /\ UNCHANGED <<item, ghostv>>
+     ELSE TakeRet(w, item[w])
   /\ UNCHANGED <<localv, globalv, gcount, pmu, parked, closed, waitq, woken, vic, pk, lk>>
 
 \* ------------------------------------------------------------------ take: global ring
@@ -332,7 +338,7 @@ PushLock(t) ==
 PushStore(t) ==
   /\ pc[t] = "pushstore"
   /\ gcount' = gsize /\ pmu' = ""
-  /\ IF parked > 0 /\ waitq # <<>> /\ ~Def("NoSignal")
+  /\ IF parked > 0 /\ waitq # <<>> /\ ~Def("NoSignal") /\ (Def("SignalOnFirstOnly") => gsize = 1)
      THEN \E i \in (IF SignalFIFO THEN {1} ELSE 1..Len(waitq)) :
              /\ woken' = woken \cup {waitq[i]}
              /\ waitq' = [j \in 1..(Len(waitq) - 1) |-> IF j < i THEN waitq[j] ELSE waitq[j + 1]]
@@ -425,6 +431,9 @@ AtRest == /\ pmu = "" /\ woken = {}
           /\ pc["c"] \in {"idle", "done"}
           /\ \A w \in Workers : pc[w] \in {"idle", "waiting", "exited"}
 NoSleepWhileGlobalWork == (AtRest /\ waitq # <<>>) => gsize = 0
+
+\* a ring never hides an item behind a zero length (what LPopNoRecheck leads to: size -1, then a push makes it 0)
+NotHidden == \A w \in Workers : (lmu[w] = "" /\ lsize[w] = 0) => \A x \in 1..LCap : lbuf[w][x] = 0
 
 \* the owner is the only producer of its ring, so a thief's ring is empty while it steals (this is why the
 \* `dst.size == localQueueCap` break in stealHalf is unreachable and steals cannot deadlock under owner-only
